@@ -12,20 +12,37 @@
 //!   c08.hook.redc_inner <n> <lower> <upper> <m> <k>   `montgomery_reduction_inner`, prints `upper meta_carry`
 //!   c08.hook.params <kind> <n> <modulus>          the private fields through `verif_fields()` (kinds as `c08.params`
 //!                                                 except `const`), same line format as `c08.params`
+//! coverage round (further public forms of the three types, as steps of `c08.hist` unless noted):
+//!   new.t / zero.t / one.t        `Monty::{new,zero,one}` (dyn, boxed)      new.arc  `BoxedMontyForm::new_with_arc`
+//!   zero.d / zero.z               `Default::default()` / `num_traits::Zero::zero()` (const)
+//!   frommont,v                    `from_montgomery(v[, params])` (caller-supplied representative, canonical)
+//!   setmont,i,v                   `*x.as_montgomery_mut() = v` (dyn, const)
+//!   lincomb.t,i,j,i,j,…           `Monty::lincomb_vartime(&[(&s[i], &s[j]), …])` (dyn, boxed)
+//!   zeroize,i                     `Zeroize::zeroize` (dyn: also prints the zeroized parameter fields `|zp=…`)
+//!   eq,i,j                        `ConstantTimeEq::ct_eq` and `==` (dyn, const), `==` (boxed): `|eq=b`
+//!   obs.t / obs.tm                token read through `Monty::as_montgomery` / `to_montgomery` and `Retrieve::retrieve`
+//!   obs.p / obs.pt                `params()` / `Monty::params()`: `|mod=…,one=…,…`
+//!   obs.z                         `is_zero()`+`is_nonzero()` (boxed), `num_traits::Zero::is_zero` (const): `|z=…`
+//!   obs.bp                        `BoxedMontyForm::bits_precision()`: `|bits=…`
+//!   kinds dynt / boxedt           parameters from `Monty::new_params_vartime`
+//!   c08.params_cteq <n> <m1> <m2> `MontyParams::ct_eq`, `MontyForm::ct_eq` across parameter sets
 //!
 //! NOTE: `core::ops::{Add, Sub, Mul, Neg}` are deliberately NOT imported, so `<T>::add(&a, &b)` is the
 //! inherent method and `a + b` the operator impl.
 use crate::util::*;
 use crypto_bigint::modular::{
-    BoxedMontyForm, BoxedMontyParams, ConstMontyForm, ConstMontyParams, MontyForm, MontyParams, montgomery_reduction,
+    BoxedMontyForm, BoxedMontyParams, ConstMontyForm, ConstMontyParams, MontyForm, MontyParams, Retrieve,
+    montgomery_reduction,
 };
+use crypto_bigint::zeroize::Zeroize;
 use crypto_bigint::verif_hooks as hooks;
 use crypto_bigint::{
     BoxedUint, Concat, Integer, Limb, Monty, MontyMultiplier, NonZero, Odd, Split, Square, SquareAssign, Uint,
     impl_modulus,
 };
 use std::panic::{AssertUnwindSafe, catch_unwind};
-use subtle::ConditionallySelectable;
+use std::sync::Arc;
+use subtle::{ConditionallySelectable, ConstantTimeEq};
 
 // ------------------------------------------------------------------ compile-time moduli (impl_modulus!)
 // (name, Uint type, limbs, big-endian hex).  tools/gen/c08.py carries the same table.
@@ -259,11 +276,29 @@ fn guarded<F: FnOnce() -> Option<String>>(f: F) -> Result<Option<String>, ()> {
     catch_unwind(AssertUnwindSafe(f)).map_err(|_| ())
 }
 
+
+/// handle pairs `i,j,i,j,…` of a `lincomb` step
+fn pairs(args: &[&str], len: usize) -> Option<Vec<(usize, usize)>> {
+    if args.is_empty() || args.len() % 2 != 0 {
+        return None;
+    }
+    args.chunks(2).map(|c| Some((idx(c[0], len)?, idx(c[1], len)?))).collect()
+}
+
+/// `|eq=b` from `ct_eq` and `==` (which must agree)
+fn eq_extra(ct: Option<bool>, pe: bool) -> String {
+    match ct {
+        Some(c) if c != pe => "|eq=mismatch".to_string(),
+        _ => format!("|eq={}", bit(pe)),
+    }
+}
+
 // ---- boxed
 fn run_boxed(mut store: Vec<BoxedMontyForm>, params: BoxedMontyParams, steps: &[Step<'_>], out: &mut Vec<String>) -> Option<()> {
     let n = params.modulus().as_ref().nlimbs();
     for st in steps {
         let r = guarded(|| {
+            let (mut extra, mut acc) = (String::new(), "");
             let res: StepRes = if let Some(r) = shared_step!(BoxedMontyForm, store, st) {
                 r
             } else if let Some(r) = monty_trait_step!(BoxedMontyForm, store, st, params.clone()) {
@@ -278,14 +313,57 @@ fn run_boxed(mut store: Vec<BoxedMontyForm>, params: BoxedMontyParams, steps: &[
                     ("one", "", []) => { store.push(BoxedMontyForm::one(params.clone())); Ok(store.len() - 1) }
                     ("div2", "ai", [i]) => idx(i, store.len()).map(|i| { store[i].div_by_2_assign(); i }).ok_or(()),
                     ("conv", "", []) if !store.is_empty() => Ok(store.len() - 1),
+                    // ---- coverage round
+                    ("new", "t", [v]) => boxed(v, n).map(|v| {
+                        store.push(<BoxedMontyForm as Monty>::new(v, params.clone()));
+                        store.len() - 1
+                    }).ok_or(()),
+                    ("new", "arc", [v]) => boxed(v, n).map(|v| {
+                        store.push(BoxedMontyForm::new_with_arc(v, Arc::new(params.clone())));
+                        store.len() - 1
+                    }).ok_or(()),
+                    ("zero", "t", []) => { store.push(<BoxedMontyForm as Monty>::zero(params.clone())); Ok(store.len() - 1) }
+                    ("one", "t", []) => { store.push(<BoxedMontyForm as Monty>::one(params.clone())); Ok(store.len() - 1) }
+                    ("frommont", "", [v]) => boxed(v, n).map(|v| {
+                        store.push(BoxedMontyForm::from_montgomery(v, params.clone()));
+                        store.len() - 1
+                    }).ok_or(()),
+                    ("lincomb", "t", ij) => pairs(ij, store.len()).map(|ps| {
+                        let refs: Vec<(&BoxedMontyForm, &BoxedMontyForm)> = ps.iter().map(|&(i, j)| (&store[i], &store[j])).collect();
+                        let r = <BoxedMontyForm as Monty>::lincomb_vartime(&refs);
+                        store.push(r);
+                        store.len() - 1
+                    }).ok_or(()),
+                    ("zeroize", "", [i]) => idx(i, store.len()).map(|i| { Zeroize::zeroize(&mut store[i]); i }).ok_or(()),
+                    ("eq", "", [i, j]) => (|| {
+                        let (i, j) = (idx(i, store.len())?, idx(j, store.len())?);
+                        extra = eq_extra(None, store[i] == store[j]);
+                        Some(i)
+                    })().ok_or(()),
+                    ("obs", f, [i]) => (|| {
+                        let i = idx(i, store.len())?;
+                        let v = &store[i];
+                        match f {
+                            "t" | "tm" => acc = f,
+                            "p" => extra = format!("|{}", fields_line_boxed(v.params()).replace(' ', ",")),
+                            "pt" => extra = format!("|{}", fields_line_boxed(Monty::params(v)).replace(' ', ",")),
+                            "z" => extra = format!("|z={}{}", bit(bool::from(v.is_zero())), bit(bool::from(v.is_nonzero()))),
+                            "bp" => extra = format!("|bits={}", v.bits_precision()),
+                            _ => return None,
+                        }
+                        Some(i)
+                    })().ok_or(()),
                     _ => Err(()),
                 }
             };
             let i = res.ok()?;
             let v = &store[i];
-            let form = bhex(v.as_montgomery());
-            let retr = bhex(&v.retrieve());
-            Some(format!("{form}:{retr}"))
+            let (form, retr) = match acc {
+                "t" => (bhex(Monty::as_montgomery(v)), bhex(&Retrieve::retrieve(v))),
+                "tm" => (bhex(&v.to_montgomery()), bhex(&Retrieve::retrieve(v))),
+                _ => (bhex(v.as_montgomery()), bhex(&v.retrieve())),
+            };
+            Some(format!("{form}:{retr}{extra}"))
         });
         match r {
             Ok(Some(tok)) => out.push(tok),
@@ -329,6 +407,7 @@ fn run_dyn<const N: usize>(
             };
         }
         let r = guarded(|| {
+            let (mut extra, mut acc) = (String::new(), "");
             let res: StepRes = if let Some(r) = shared_step!(MontyForm<N>, store, st) {
                 r
             } else if let Some(r) = monty_trait_step!(MontyForm<N>, store, st, params) {
@@ -340,12 +419,58 @@ fn run_dyn<const N: usize>(
                     ("new", "", [v]) => uint::<N>(v).map(|v| { store.push(MontyForm::new(&v, params)); store.len() - 1 }).ok_or(()),
                     ("zero", "", []) => { store.push(MontyForm::zero(params)); Ok(store.len() - 1) }
                     ("one", "", []) => { store.push(MontyForm::one(params)); Ok(store.len() - 1) }
+                    // ---- coverage round
+                    ("new", "t", [v]) => uint::<N>(v).map(|v| { store.push(<MontyForm<N> as Monty>::new(v, params)); store.len() - 1 }).ok_or(()),
+                    ("zero", "t", []) => { store.push(<MontyForm<N> as Monty>::zero(params)); Ok(store.len() - 1) }
+                    ("one", "t", []) => { store.push(<MontyForm<N> as Monty>::one(params)); Ok(store.len() - 1) }
+                    ("frommont", "", [v]) => uint::<N>(v).map(|v| { store.push(MontyForm::from_montgomery(v, params)); store.len() - 1 }).ok_or(()),
+                    ("setmont", "", [i, v]) => (|| {
+                        let (i, v) = (idx(i, store.len())?, uint::<N>(v)?);
+                        *store[i].as_montgomery_mut() = v;
+                        Some(i)
+                    })().ok_or(()),
+                    ("lincomb", "t", ij) => pairs(ij, store.len()).map(|ps| {
+                        let refs: Vec<(&MontyForm<N>, &MontyForm<N>)> = ps.iter().map(|&(i, j)| (&store[i], &store[j])).collect();
+                        let r = <MontyForm<N> as Monty>::lincomb_vartime(&refs);
+                        store.push(r);
+                        store.len() - 1
+                    }).ok_or(()),
+                    // `Zeroize for MontyForm` clears the value AND its copy of the parameters: print the zeroized fields,
+                    // then re-attach the (zero) representative to the live parameters so that the history can go on
+                    ("zeroize", "", [i]) => idx(i, store.len()).map(|i| {
+                        let mut z = store[i];
+                        Zeroize::zeroize(&mut z);
+                        extra = format!("|zp={}", fields_line_fixed(z.params()).replace(' ', ","));
+                        store[i] = MontyForm::from_montgomery(z.to_montgomery(), params);
+                        i
+                    }).ok_or(()),
+                    ("eq", "", [i, j]) => (|| {
+                        let (i, j) = (idx(i, store.len())?, idx(j, store.len())?);
+                        extra = eq_extra(Some(bool::from(store[i].ct_eq(&store[j]))), store[i] == store[j]);
+                        Some(i)
+                    })().ok_or(()),
+                    ("obs", f, [i]) => (|| {
+                        let i = idx(i, store.len())?;
+                        let v = &store[i];
+                        match f {
+                            "t" | "tm" => acc = f,
+                            "p" => extra = format!("|{}", fields_line_fixed(v.params()).replace(' ', ",")),
+                            "pt" => extra = format!("|{}", fields_line_fixed(Monty::params(v)).replace(' ', ",")),
+                            _ => return None,
+                        }
+                        Some(i)
+                    })().ok_or(()),
                     _ => Err(()),
                 }
             };
             let i = res.ok()?;
             let v = &store[i];
-            Some(format!("{}:{}", uhex(v.as_montgomery()), uhex(&v.retrieve())))
+            let (form, retr) = match acc {
+                "t" => (uhex(Monty::as_montgomery(v)), uhex(&Retrieve::retrieve(v))),
+                "tm" => (uhex(&v.to_montgomery()), uhex(&Retrieve::retrieve(v))),
+                _ => (uhex(v.as_montgomery()), uhex(&v.retrieve())),
+            };
+            Some(format!("{form}:{retr}{extra}"))
         });
         match r {
             Ok(Some(tok)) => out.push(tok),
@@ -377,6 +502,7 @@ fn run_const<P: ConstMontyParams<N>, const N: usize>(steps: &[Step<'_>], out: &m
             };
         }
         let r = guarded(|| {
+            let (mut extra, mut acc) = (String::new(), "");
             let res: StepRes = if let Some(r) = shared_step!(ConstMontyForm<P, N>, store, st) {
                 r
             } else if let Some(r) = select_step!(ConstMontyForm<P, N>, store, st) {
@@ -386,12 +512,42 @@ fn run_const<P: ConstMontyParams<N>, const N: usize>(steps: &[Step<'_>], out: &m
                     ("new", "", [v]) => uint::<N>(v).map(|v| { store.push(ConstMontyForm::<P, N>::new(&v)); store.len() - 1 }).ok_or(()),
                     ("zero", "", []) => { store.push(ConstMontyForm::<P, N>::ZERO); Ok(store.len() - 1) }
                     ("one", "", []) => { store.push(ConstMontyForm::<P, N>::ONE); Ok(store.len() - 1) }
+                    // ---- coverage round
+                    ("zero", "d", []) => { store.push(<ConstMontyForm<P, N> as Default>::default()); Ok(store.len() - 1) }
+                    ("zero", "z", []) => { store.push(<ConstMontyForm<P, N> as num_traits::Zero>::zero()); Ok(store.len() - 1) }
+                    ("frommont", "", [v]) => uint::<N>(v).map(|v| { store.push(ConstMontyForm::<P, N>::from_montgomery(v)); store.len() - 1 }).ok_or(()),
+                    ("setmont", "", [i, v]) => (|| {
+                        let (i, v) = (idx(i, store.len())?, uint::<N>(v)?);
+                        *store[i].as_montgomery_mut() = v;
+                        Some(i)
+                    })().ok_or(()),
+                    ("zeroize", "", [i]) => idx(i, store.len()).map(|i| { Zeroize::zeroize(&mut store[i]); i }).ok_or(()),
+                    ("eq", "", [i, j]) => (|| {
+                        let (i, j) = (idx(i, store.len())?, idx(j, store.len())?);
+                        extra = eq_extra(Some(bool::from(store[i].ct_eq(&store[j]))), store[i] == store[j]);
+                        Some(i)
+                    })().ok_or(()),
+                    ("obs", f, [i]) => (|| {
+                        let i = idx(i, store.len())?;
+                        let v = &store[i];
+                        match f {
+                            "t" | "tm" => acc = f,
+                            "z" => extra = format!("|z={}", bit(num_traits::Zero::is_zero(v))),
+                            _ => return None,
+                        }
+                        Some(i)
+                    })().ok_or(()),
                     _ => Err(()),
                 }
             };
             let i = res.ok()?;
             let v = &store[i];
-            Some(format!("{}:{}", uhex(v.as_montgomery()), uhex(&v.retrieve())))
+            let (form, retr) = match acc {
+                "t" => (uhex(v.as_montgomery()), uhex(&Retrieve::retrieve(v))),
+                "tm" => (uhex(&v.to_montgomery()), uhex(&Retrieve::retrieve(v))),
+                _ => (uhex(v.as_montgomery()), uhex(&v.retrieve())),
+            };
+            Some(format!("{form}:{retr}{extra}"))
         });
         match r {
             Ok(Some(tok)) => out.push(tok),
@@ -412,7 +568,7 @@ fn finish(m: &str, ok: Option<()>, out: Vec<String>) -> Option<String> {
     Some(s)
 }
 
-fn hist_dyn<const N: usize, const W: usize>(vartime: bool, m: &str, steps: &[Step<'_>]) -> Option<String>
+fn hist_dyn<const N: usize, const W: usize>(kind: &str, m: &str, steps: &[Step<'_>]) -> Option<String>
 where
     Uint<N>: Concat<Output = Uint<W>>,
     Uint<W>: Split<Output = Uint<N>>,
@@ -421,7 +577,11 @@ where
     let modulus = arg!(modulus);
     let mut out = Vec::new();
     let ok = match guarded(|| {
-        let params = if vartime { MontyParams::new_vartime(modulus) } else { MontyParams::new(modulus) };
+        let params = match kind {
+            "dynv" => MontyParams::new_vartime(modulus),
+            "dynt" => <MontyForm<N> as Monty>::new_params_vartime(modulus),
+            _ => MontyParams::new(modulus),
+        };
         run_dyn::<N>(Vec::new(), params, None, steps, &mut out).map(|_| String::new())
     }) {
         Ok(Some(_)) => Some(()),
@@ -440,12 +600,16 @@ impl ConstVisitor for HistConst<'_, '_> {
     }
 }
 
-fn hist_boxed(vartime: bool, n: usize, m: &str, steps: &[Step<'_>]) -> Option<String> {
+fn hist_boxed(kind: &str, n: usize, m: &str, steps: &[Step<'_>]) -> Option<String> {
     let modulus: Option<Odd<BoxedUint>> = Odd::new(arg!(boxed(m, n))).into();
     let modulus = arg!(modulus);
     let mut out = Vec::new();
     let ok = match guarded(|| {
-        let params = if vartime { BoxedMontyParams::new_vartime(modulus) } else { BoxedMontyParams::new(modulus) };
+        let params = match kind {
+            "boxedv" => BoxedMontyParams::new_vartime(modulus),
+            "boxedt" => <BoxedMontyForm as Monty>::new_params_vartime(modulus),
+            _ => BoxedMontyParams::new(modulus),
+        };
         run_boxed(Vec::new(), params, steps, &mut out).map(|_| String::new())
     }) {
         Ok(Some(_)) => Some(()),
@@ -494,14 +658,22 @@ where
 {
     let modulus: Option<Odd<Uint<N>>> = Odd::new(arg!(uint::<N>(m))).into();
     let modulus = arg!(modulus);
-    let p = if kind == "dynv" { MontyParams::new_vartime(modulus) } else { MontyParams::new(modulus) };
+    let p = match kind {
+        "dynv" => MontyParams::new_vartime(modulus),
+        "dynt" => <MontyForm<N> as Monty>::new_params_vartime(modulus),
+        _ => MontyParams::new(modulus),
+    };
     params_line(&format!("{p:?}")).or(Some(BAD.to_string()))
 }
 
 fn params_boxed(kind: &str, n: usize, m: &str) -> Option<String> {
     let modulus: Option<Odd<BoxedUint>> = Odd::new(arg!(boxed(m, n))).into();
     let modulus = arg!(modulus);
-    let p = if kind == "boxedv" { BoxedMontyParams::new_vartime(modulus) } else { BoxedMontyParams::new(modulus) };
+    let p = match kind {
+        "boxedv" => BoxedMontyParams::new_vartime(modulus),
+        "boxedt" => <BoxedMontyForm as Monty>::new_params_vartime(modulus),
+        _ => BoxedMontyParams::new(modulus),
+    };
     params_line(&format!("{p:?}")).or(Some(BAD.to_string()))
 }
 
@@ -542,6 +714,23 @@ where
     let fields = |s: String| params_line(&s);
     let cross = fields(format!("{a:?}")) == fields(format!("{c:?}"));
     Some(format!("{} {} {}", bit(a == b), bit(c == d), bit(cross)))
+}
+
+/// `ConstantTimeEq for MontyParams` and `for MontyForm` across two parameter sets
+fn params_cteq<const N: usize, const W: usize>(m1: &str, m2: &str) -> Option<String>
+where
+    Uint<N>: Concat<Output = Uint<W>>,
+    Uint<W>: Split<Output = Uint<N>>,
+{
+    let a: Option<Odd<Uint<N>>> = Odd::new(arg!(uint::<N>(m1))).into();
+    let b: Option<Odd<Uint<N>>> = Odd::new(arg!(uint::<N>(m2))).into();
+    let (p, q) = (MontyParams::new(arg!(a)), MontyParams::new_vartime(arg!(b)));
+    let params_eq = bool::from(p.ct_eq(&q));
+    if params_eq != (p == q) {
+        return Some("ct_eq-differs-from-==".to_string());
+    }
+    let forms_eq = bool::from(MontyForm::zero(p).ct_eq(&MontyForm::zero(q)));
+    Some(format!("{} {}", bit(params_eq), bit(forms_eq)))
 }
 
 struct ParamsEqConst;
@@ -671,19 +860,17 @@ pub fn dispatch(op: &str, a: &[&str]) -> Option<String> {
             let steps = arg!(parse_steps(ops));
             let steps = steps.as_slice();
             match *kind {
-                "dyn" => with_nw!(n, hist_dyn, false, m, steps),
-                "dynv" => with_nw!(n, hist_dyn, true, m, steps),
+                "dyn" | "dynv" | "dynt" => with_nw!(n, hist_dyn, kind, m, steps),
                 "const" => with_const_modulus(n, m, HistConst(m, steps)),
-                "boxed" => hist_boxed(false, n, m, steps),
-                "boxedv" => hist_boxed(true, n, m, steps),
+                "boxed" | "boxedv" | "boxedt" => hist_boxed(kind, n, m, steps),
                 _ => Some(BAD.to_string()),
             }
         }
         ("c08.params", [kind, n, m]) => {
             let n = arg!(dec(n));
             match *kind {
-                "dyn" | "dynv" => with_nw!(n, params_dyn, kind, m),
-                "boxed" | "boxedv" => params_boxed(kind, n, m),
+                "dyn" | "dynv" | "dynt" => with_nw!(n, params_dyn, kind, m),
+                "boxed" | "boxedv" | "boxedt" => params_boxed(kind, n, m),
                 "const" | "dynfromconst" | "boxedfromconst" => with_const_modulus(n, m, ParamsConst(kind)),
                 _ => Some(BAD.to_string()),
             }
@@ -691,6 +878,10 @@ pub fn dispatch(op: &str, a: &[&str]) -> Option<String> {
         ("c08.params_eq", [n, m]) => {
             let n = arg!(dec(n));
             with_nw!(n, params_eq, m)
+        }
+        ("c08.params_cteq", [n, m1, m2]) => {
+            let n = arg!(dec(n));
+            with_nw!(n, params_cteq, m1, m2)
         }
         ("c08.params_eq_const", [n, m]) => {
             let n = arg!(dec(n));
